@@ -157,8 +157,8 @@ Definition guard_F04d (names : list str) (body : option str) : bool :=
    For each raw schema name n in document order: skipped when n or sanitize_class_name(n) is already a key of
    context.parsed_schemas; otherwise parsed: IRSchema.__post_init__ derives the stored name
    from the (already sanitised) name (Names.ir_name), and the parser registers the schema under that name, or under the raw name when that key is taken
-   (schema_parser.py "collision detected").  After the passes (below) every raw name must be found under n or its
-   sanitised form, else RuntimeError (None).  Output: (registered key, position of the raw schema whose content it holds). *)
+   (schema_parser.py "collision detected").  Afterwards every raw name must be found under n or its sanitised
+   form, else RuntimeError (None).  Output: (registered key, position of the raw schema whose content it holds). *)
 Fixpoint build_keys_go (keys : list (str * nat)) (i : nat) (raw : list str) : list (str * nat) :=
   match raw with
   | [] => keys
@@ -169,16 +169,11 @@ Fixpoint build_keys_go (keys : list (str * nat)) (i : nat) (raw : list str) : li
       else let c2 := ir_name c1 in
            build_keys_go (keys ++ [(if mem_str c2 ks then n else c2, i)]) (S i) r
   end.
-(* since F02d: up to len(raw_schemas) passes over the names that are still not found under n or its sanitised form
-   (a pass changes nothing once every name is found; a later pass re-parses e.g. "a_b", whose first registration
-   went to the doubly sanitised key "Ab", and registers it a second time under its raw name) *)
-Fixpoint build_passes (k : nat) (keys : list (str * nat)) (raw : list str) : list (str * nat) :=
-  match k with
-  | O => keys
-  | S k' => build_passes k' (build_keys_go keys 0 raw) raw
-  end.
+(* since F02d/ae5b020: one pass over all names; later passes revisit ONLY depth-limit placeholders, never names
+   that are simply not registered — flat object schemas (this model's domain) never produce placeholders, so
+   there is exactly one pass *)
 Definition build_keys (raw : list str) : option (list (str * nat)) :=
-  let keys := build_passes (length raw) [] raw in
+  let keys := build_keys_go [] 0 raw in
   let ks := map fst keys in
   if forallb (fun n => mem_str n ks || mem_str (class_name n) ks) raw then Some keys else None.
 
